@@ -26,7 +26,7 @@ EXPLANATION = (
 ASSUMPTIONS = ["hooks do not raise", "inline executor", "concurrent messages are checked per message in C02/C07 harnesses; here one message per run"]
 TRUSTED = ["CPython asyncio (real, virtual clock)", "vt.sym explorer", "recording middlewares"]
 BOUNDS = {"middlewares": "0..2 quick (3 kinds per hook), 3 thorough (2 kinds per hook)", "messages": 1}
-REQUIRED_COVERS = ["via_listen", "future_hook", "exec", "send", "kick_failed", "async_hook", "sync_hook", "no_hook", "replace", "post_save_skipped", "on_error_ran"]
+REQUIRED_COVERS = ["late_middleware", "via_listen", "future_hook", "exec", "send", "kick_failed", "async_hook", "sync_hook", "no_hook", "replace", "post_save_skipped", "on_error_ran"]
 
 EXEC_HOOKS = ("pre_execute", "on_error", "post_execute", "post_save")
 SEND_HOOKS = ("pre_send", "post_send")
@@ -82,6 +82,9 @@ def exec_side(c: sym.Ctx, case: Dict[str, Any]) -> None:
         "ack": "when_saved", "async_ack": False, "target": "async", "outcome0": case["outcome0"], "timeout_label0": False,
         "backend_fail0": case["backend_fail0"], "mws": mws, "replace": replace, "task_gate": False, "backend_gate": False,
     }
+    if mws and not case["backend_fail0"] and c.flag("middleware_registered_after_a_first_message"):
+        c.cover("late_middleware")
+        spec["late_from"] = c.choose(list(range(len(mws))), "late_from")
     lab = _cb.run(c, spec, n_msgs=1)
     o, bf = case["outcome0"], case["backend_fail0"]
     want: List[Any] = [(k, "pre_execute") for k, m in enumerate(mws) if "pre_execute" in m]
